@@ -315,6 +315,22 @@ def crash_recovery(trio, sc, snap_dir, k, contents, cfg, pre_abs, pid_prefixes, 
                         problems.append("after the recovery of %r, other pid %r is no longer retrievable: %s" % (sc.pid, q, rq[:60]))
         finally:
             _sh.rmtree(twin, ignore_errors=True)
+    # (3'') metadata after an interrupted delete: whatever the crash left (a `_delete` marker), a document of
+    #       the pid stored again can be deleted again and is then gone
+    if sc.call.name in ("delete_metadata", "delete_object"):
+        import shutil as _sh
+        twin = snap_dir + "_meta"
+        _sh.copytree(snap_dir, twin)
+        try:
+            real3 = impl.Real(contents, base=trio.real.base, root=twin, **cfg)
+            doc = contents.add(b"<document stored again after the crash/>")
+            m1 = real3.run(store_metadata(sc.pid, ("ok", doc, "str", 0), None))
+            m2 = real3.run(delete_metadata(sc.pid, None))
+            m3 = real3.run(retrieve_metadata(sc.pid, None))
+            if m1.startswith("ok") and m2 == "ok unit" and m3.startswith("ok"):
+                problems.append("a document of %r stored again after the interrupted delete survives delete_metadata(pid): %s" % (sc.pid, m3[:40]))
+        finally:
+            _sh.rmtree(twin, ignore_errors=True)
     # (3) delete_object (may say unknown) then store_object always succeeds and the pid is retrievable
     r1 = real.run(delete_object(sc.pid))
     if not (r1 == "ok unit" or r1 == "err PidRefsDoesNotExist"):
